@@ -71,16 +71,25 @@ class HWorld(object):
                 return 1 if a == 1 else int(a + 0.5)
             return int(round((a - 1000.0) / 0.004)) if close else a
 
+        # int_first: function version 1 returns Python ints, version 2 non-integral floats (+ 0.25)
+        int_first = self.int_first = bool(variant.get("int_first")) and not off
+
         def fn(a, b, c=7):
+            if int_first:
+                v_ = VER[0] * 1000 + 10 * ai(a) + b
+                return int(v_) if VER[0] == 1 else v_ + 0.25
             return float(off + VER[0] * 1000 + 10 * ai(a) + b)
 
         def fn2(a, b, c=7):
             # the function after it gained a second output
-            return float(off + VER[0] * 1000 + 10 * ai(a) + b), float(VER[0] * 1000 + 10 * ai(a) + b)
+            return fn(a, b, c), float(VER[0] * 1000 + 10 * ai(a) + b)
 
         self.fn = fn
-        self.runner = self.xyz.Runner(fn, var_names="x", fn_args=("a", "b", "c"))
-        self.runner2 = self.xyz.Runner(fn2, var_names=["x", "y"], fn_args=("a", "b", "c"))
+        rkw = {}
+        if variant.get("bool_attrs"):
+            rkw["attrs"] = {"flag": True, "nothing": None, "off": False}     # (netCDF engines store these as strings)
+        self.runner = self.xyz.Runner(fn, var_names="x", fn_args=("a", "b", "c"), **rkw)
+        self.runner2 = self.xyz.Runner(fn2, var_names=["x", "y"], fn_args=("a", "b", "c"), **rkw)
         self.two = False          # True once the function has the second output
         self.ymap = {}            # (a, b) -> version expected for y
         self.h = None
@@ -131,6 +140,8 @@ class HWorld(object):
                         v = int(x) // 1000
                         if int(x) % 1000 != 10 * a + b:
                             v = -1          # a value that belongs to another point
+                        elif x - int(x) != (0.25 if (self.int_first and var == "x" and v == 2) else 0.0):
+                            v = -1          # not exactly the value the function returned (e.g. truncated)
                 except KeyError:
                     v = 0
             out[p] = v
